@@ -232,6 +232,8 @@ def evaluator(cx, h: SInt, r: SInt, s: SInt, expected=1.0) -> SObj:
 
     e.fields["_fitness_cache"] = cx.int_dict("fitness_cache", cached)
     e.fields["_solution_set"] = cx.int_set("solution_set")
+    from pyvc.dsl import unknown_fields
+    unknown_fields(cx, e)
     return e
 
 
@@ -265,7 +267,7 @@ class _EvalConstraintsLoop:
 @register
 class Evaluator_evaluate_constraints(Contract):
     target = "evolution/evaluation.py:Evaluator._evaluate_constraints"
-    properties = ("C02", "C03")
+    properties = ("C02", "C03", "C11")
     loops = {0: Loop(0, iter_text="constraints", inv=_EvalConstraintsLoop.inv, havoc=_EvalConstraintsLoop.havoc,
                      modifies=("fitness", "failing_trees", "suggestions", "self._checks_made", "constraint", "result"))}
 
@@ -291,10 +293,15 @@ class Evaluator_evaluate_constraints(Contract):
     def ensures(self, cx, a, res):
         l, t = a["constraints"].ghost["ident"], a["individual"].ident
         n = a["constraints"].length.term
+        if cx.tag.split("@")[0] == self.target and not cx.ghost.get("call_site"):
+            # ownership (C11): the failing-tree list handed out is a new list, not state shared between evaluations
+            shape_ok = isinstance(res, tuple) and len(res) == 3 and isinstance(res[1], SList) and res[1].fresh
+            if not shape_ok:
+                return [("returns_fitness_and_a_fresh_failing_tree_list", z3.BoolVal(False))]
         f = as_float(res[0])
         allok_base(cx, l, t, n)
         ok = AllOk(l, t, n)
-        return [
+        return [("returns_fitness_and_a_fresh_failing_tree_list", z3.BoolVal(True)),
             ("one_iff_all_satisfied", feq(f, 1.0) == ok),
             ("in_unit_interval", And(fge(f, 0.0), fle(f, 1.0))),
             ("below_one_has_gap", Implies(Not(feq(f, 1.0)), fle(f, 1.0 - GAP2))),
